@@ -42,10 +42,6 @@ class Decoder16b(Decoder):
                 run_value = fdata[idx]
                 idx = idx + 1
     
-                # Jump to next byte when necessary
-                if ((x + run_length) > w) and (x < w):
-                    x = w
-    
                 # Jump to next row when necessary
                 if ((x + run_length) > width):
                     x = 0
@@ -61,10 +57,6 @@ class Decoder16b(Decoder):
                 # Not RLE encoded
                 run_length = val + 1
                 idx = idx + 1
-    
-                # Jump to next byte when necessary
-                if ((x + run_length) > w) and (x < w):
-                    x = w
     
                 # Jump to next row when necessary
                 if ((x + run_length) > width):
